@@ -14,7 +14,7 @@ CONSTANTS
   UseJson = FALSE
   BoundarySel = {1}
   PreSel = {1, 3}
-  EpiSel = {1, 3}
+  EpiSel = {1}
   FinSel = {TRUE, FALSE}
   LimModes = {"base", "count", "hdr", "buf"}
   EditPos <- NoPos
